@@ -273,7 +273,7 @@ Load(w) == op.o = "Init" /\ st' = ParseLines(Empty, Wire(w)) /\ op' = Op("Load",
 CookieArgs == IF Kind = "req" THEN {<<"k", "9">>, <<"j", "8">>} ELSE {<<"k", "k=9">>, <<"j", "j=8; path=/">>}
 
 \* Typed selects which groups of typed setters are enabled ("cl", "framing", "cookie", "slot")
-TypedOps == \/ /\ ("cl" \in Typed \/ "framing" \in Typed)
+TypedOps == \/ /\ Typed \cap {"cl", "framing"} # {}
                /\ \E n \in {5, -1} : SetContentLength(n)
             \/ /\ "framing" \in Typed
                /\ (SetConnectionClose \/ ResetConnectionClose)
@@ -286,13 +286,15 @@ TypedOps == \/ /\ ("cl" \in Typed \/ "framing" \in Typed)
                   \/ SetHost("h1") \/ SetUserAgent("u1") \/ SetServer("s1") \/ SetContentEncoding("gzip")
 
 \* Typed group "load": the object may first be loaded from the wire; "loadfirst": it always is
-Step == \/ /\ ("loadfirst" \notin Typed \/ op.o # "Init")
+\* (guards are written without disjunctions: TLC would enumerate every successor once per
+\* true disjunct)
+Step == \/ /\ ~("loadfirst" \in Typed /\ op.o = "Init")
            /\ \/ \E sp \in Spellings :
                    \/ \E v \in ValsFor(sp) : \/ ("Set" \in Ops /\ Set(sp, v))
                                              \/ ("Add" \in Ops /\ Add(sp, v))
                    \/ ("Del" \in Ops /\ Del(sp))
               \/ TypedOps
-        \/ /\ ("load" \in Typed \/ "loadfirst" \in Typed)
+        \/ /\ Typed \cap {"load", "loadfirst"} # {}
            /\ Load("w1")
 Next == Step /\ UNCHANGED cfg
 
